@@ -20,7 +20,8 @@ Answers that cannot be turned into a ballot (a failed voter: one zero-confidence
   unrepr (a dict WITH a valid confidence holding a value whose repr() raises) | unkey (a dict whose key lookup raises);
   the X voters raise from `express`, or return None / a string / an object without `action_type` / a protein whose
   `payload` attribute raises, in turn.
-Observation of a vote: reached decision permit block abstain total thresholdTag [type:weight:conf,...] strategy cb=<which>
+Observation of a vote: reached decision permit block abstain total thresholdTag [type:weight:conf,...] strategy
+  st=<total_votes>/<quorums_reached>/<quorums_failed>/<history length> cb=<which>
   (a raising callback: `raise:CallbackError <which> <the result the callback was handed>`); `run_vote` is entered in
   turn as run_vote(p), run_vote(p, {...}), run_vote(prompt=p, context=None)
 
@@ -987,7 +988,7 @@ class C06(Prop):
         except Exception:  # noqa
             return None
 
-    def _observe(self, q, n, prompt="proposal", skip_nondyadic=False, style=0, rec=None, side=None, prev=None):
+    def _observe(self, q, n, prompt="proposal", skip_nondyadic=False, style=0, rec=None, side=None, prev=None, light=False):
         """one vote through the public entry point (three call styles in turn).  `rec`: what the installed callbacks
         were handed; `side`: receives the names of the other public reports (history, statistics) that do not match
         the returned result"""
@@ -1029,8 +1030,14 @@ class C06(Prop):
             tag = f"cnt:{round(r.threshold_used * n)}"
         else:
             tag = show_rat(Fraction(float(r.threshold_used)).limit_denominator(10 ** 6))
+        stq = None if light else self._stats(q)         # the object's counters and history length after this vote
+        try:
+            hl = "?" if light else len(q.get_vote_history(10 ** 6))
+        except Exception:  # noqa
+            hl = "?"
+        stt = "st=?" if stq is None else f"st={stq['total_votes']}/{stq['quorums_reached']}/{stq['quorums_failed']}/{hl}"
         obs = " ".join([show_bool(r.reached), r.decision.value, str(r.permit_votes), str(r.block_votes),
-                        str(r.abstain_votes), str(r.total_votes), tag, "[" + votes + "]", r.strategy.value])
+                        str(r.abstain_votes), str(r.total_votes), tag, "[" + votes + "]", r.strategy.value, stt])
         if raised:
             return f"raise:CallbackError {rec[-1][0]} {obs}", r
         fired = "+".join(w + ("" if res is r else "!other") for (w, res) in rec) or "none"
@@ -1226,7 +1233,7 @@ class C06(Prop):
         """run the real code on a (perturbed) ballot; returns the reached flag and decision"""
         q = self._fresh(st, len(ballot))
         self._install(q, ballot)
-        o, _ = self._observe(q, len(ballot))
+        o, _ = self._observe(q, len(ballot), light=True)
         if o.startswith("raise:"):
             return None
         f = o.split(" ")
